@@ -198,7 +198,7 @@ public:
 
             m_search_space.extend_basis(corr_vect);
         }
-        if (m_ritz_pairs.size() < m_number_eigenvalues)
+        if (m_ritz_pairs.converged_eigenvalues().size() < m_number_eigenvalues)
             return 0;
         return (m_ritz_pairs.converged_eigenvalues()).template cast<Index>().head(m_number_eigenvalues).sum();
     }
